@@ -138,7 +138,15 @@ def run_connect(sc):
     chain = sc["chain"]
     state = {"n": 0, "prev_key": None, "peers": []}
 
+    prior = sc.get("prior")        # "open" | "closed": the object has been connected before (and closed, or not)
+
     def factory(world, sock, address):
+        if prior and not state.get("prior_done"):
+            state["prior_done"] = True
+            p = HeadPeer(world, dict(OKHEAD), None)
+            p.index = -1
+            state["prior_peer"] = p
+            return p
         i = state["n"]
         state["n"] += 1
         spec = chain[i] if i < len(chain) else {"status": 500}
@@ -156,6 +164,7 @@ def run_connect(sc):
         opts["subprotocols"] = list(offered)
     ws = None
     outcome = None
+    mark = 0
 
     def on_alarm(signum, frame):
         raise HangForever()
@@ -170,6 +179,12 @@ def run_connect(sc):
                 else:
                     ws = websocket.WebSocket()
                     ws.settimeout(sc.get("timeout", 5))
+                    if prior:
+                        ws.connect("ws://earlier.test/before")
+                        if prior == "closed":
+                            ws.close(timeout=0)
+                        mark = len(w.log)
+                        state["nsock0"] = len(w.sockets)
                     ws.connect("ws://origin.test/start", **opts)
                 outcome = {"kind": "returned", "cls": "", "doc": True, "terr": False}
             except HangForever:
@@ -186,6 +201,8 @@ def run_connect(sc):
         if e["ev"] == "tclose":
             closed_at.setdefault(e["sock"], k)
     for k, e in enumerate(w.log):
+        if k < mark:
+            continue
         if e["ev"] == "attempt_seen":
             p = [p for p in state["peers"] if p.sock.id == e["sock"]][0]
             prev_closed = True
@@ -204,7 +221,7 @@ def run_connect(sc):
         if ws is None and outcome["kind"] == "raised" and sc.get("api") != "create_connection":
             pass
         outcome.update({"ev": "outcome", "connected": obj_connected, "sockNone": sock_none,
-                        "open": sum(1 for s in w.sockets if not s.closed),
+                        "open": sum(1 for s in w.sockets[state.get("nsock0", 0):] if not s.closed),   # (transports of this call)
                         "status": int(ws.status) if (ws is not None and ws.status is not None) else -1})
         log(outcome)
     log({"ev": "end"})
@@ -290,7 +307,8 @@ def judge(ctx, pid, rejected):
         rep = {"scenario": sc, "clause": why, "trace": trace}
         if owner == "harness":
             ctx.machinery_error = "harness inconsistency in trace %s: %s %s" % (sc["tid"], why, trace[-3:])
-        elif owner == pid:
+        elif owner == pid or why == "C17.undocumented_exception":
+            # (an exception outside the documented ones is never the outcome any property asks for)
             out = [e for e in trace if e["ev"] in ("outcome", "hang", "bigreq")]
             ctx.deviation(finding_for(ctx, why, sc), "connect trace %s: clause %s; chain=%s limit=%s offered=%s outcome=%s"
                           % (sc["tid"], why, json.dumps(sc["chain"])[:300], sc.get("limit"), sc.get("offered"),
@@ -369,6 +387,32 @@ def fam_heads(rng, tier):
             add([spec, {"status": 101, "upgrade": " websocket", "connection": " Upgrade", "accept": "right"}], offered=off)
         else:
             add([spec], offered=off)
+    # status lines whose status is not the three digits 101 although it begins with them / evaluates to them, with
+    # everything else a switch needs: not an established connection
+    for sl in ("HTTP/1.1 1010 X", "HTTP/1.1 1015 X", "HTTP/1.1 10100 X", "HTTP/1.1 101.5 X", "HTTP/1.1 101x X", "HTTP/1.1 +101 X",
+               "HTTP/1.1 1_01 X", "HTTP/1.1 0101 X", "HTTP/1.1 ١٠١ X".encode("utf-8").decode("latin-1")):
+        n += 1
+        out.append({"tid": "hd%d" % n, "chain": [{"status": 0, "status_line": sl, "upgrade": " websocket", "connection": " Upgrade", "accept": "right",
+                                                  "status_text": sl}],
+                    "limit": None, "offered": None, "api": "connect" if n % 2 else "create_connection", "timeout": 2})
+    # very long header lines: a line is a line whatever its length (no header may be conjured up from the middle of one)
+    for L in (4096, 8192, 8193, 16384, 65536):
+        for tail in ("Upgrade: websocket", "\r"):
+            pad = "X-Pad: " + "p" * (L - len("X-Pad: "))
+            spec = {"status": 101, "upgrade": None, "connection": " Upgrade", "accept": "right", "extra": [pad + tail]}
+            n += 1
+            out.append({"tid": "hd%d" % n, "chain": [spec], "limit": None, "offered": None, "api": "connect", "timeout": 2})
+            spec2 = {"status": 101, "upgrade": " websocket", "connection": " Upgrade", "accept": "right", "extra": [pad]}
+            n += 1
+            out.append({"tid": "hd%d" % n, "chain": [spec2], "limit": None, "offered": None, "api": "connect", "timeout": 2})
+    # the same decisions on an object that has been connected before (closed in between, or still open): a failing
+    # connect() leaves it unconnected
+    k = 0
+    for sc in list(out):
+        if sc["api"] == "connect" and (k % 6 == 0 or sc["chain"][0].get("accept") == "right"):
+            n += 1
+            out.append(dict(sc, tid="hd%d" % n, prior="open" if n % 2 else "closed"))
+        k += 1
     return out
 
 
@@ -479,6 +523,9 @@ def fam_garbage_heads(rng, tier):
         add(spec={"status": st, "location": "http://x.test/"})
         add(spec={"status": st, "location": "nonsense"})
         add(spec={"status": st, "location": "ws://"})
+        for loc in ("ws://[::1/x", "//[fe80::1/", "ws://host]:80/", "ws://[", "ws://]", "ws://\u2100.test/", "/relative", "../up", "?q", "#frag",
+                    "ws://h:notaport/", "ws://h:99999/", "ws://:80/", "ws://h:-1/"):
+            add(spec={"status": st, "location": loc.encode("utf-8").decode("latin-1")})
         add(spec={"status": st}, limit=0)
     for _ in range(400 if tier == "quick" else 20000):
         raw = bytearray(build_head(dict(OKHEAD, extra=["Set-Cookie: a=b; Domain=x.test"]), b"k" * 24, None))
